@@ -39,11 +39,22 @@ class FanoutCache:
         if 'size_limit' in settings:
             settings['size_limit'] = settings['size_limit'] / shards
 
+        def stored_size_limit(shard_directory):
+            # Does the shard hold a size limit? Its database may exist without
+            # one when the process that created it died while doing so.
+            path = op.join(shard_directory, DBNAME)
+            select = 'SELECT value FROM Settings WHERE key = "size_limit"'
+            rows = []
+            if op.exists(path):
+                with cl.closing(sqlite3.connect(path, timeout=timeout)) as con:
+                    with cl.suppress(sqlite3.OperationalError):
+                        rows = con.execute(select).fetchall()
+            return bool(rows)
+
         def shard_settings(shard_directory):
             # Keep the size limit stored in an existing shard unless a new one
             # is given; new shards get their part of the default size limit.
-            exists = op.exists(op.join(shard_directory, DBNAME))
-            if 'size_limit' in settings or exists:
+            if 'size_limit' in settings or stored_size_limit(shard_directory):
                 return settings
             return dict(settings, size_limit=default_size_limit / shards)
 
